@@ -33,6 +33,8 @@ from scapy.packet import Raw
 from tcpcl import contact, extend, formats, messages
 
 KNOWN_EXT_SIG = 'C07 / ext-item list with >= 2 items dissected as one Raw blob'
+KNOWN_IDLE_SIG = ('C07 / close-when-idle test reads the receive buffer: a terminating endpoint acts differently on '
+                  'SESS_TERM+more octets in one read than in two reads')
 MAGIC = b'dtn!'
 XFER_BOUND = {1: 8, 255: 10}
 SESS_BOUND = {255: 10}
@@ -1299,6 +1301,59 @@ def run_malformed(chk, run, jobs, sizes):
     chk.obligation('correspondence:malformed (no verdict)', not run.mismatch.get('malformed'), '; '.join(run.mismatch.get('malformed', [])[:3]))
 
 
+def session_run(obj, chunks):
+    """ One schedule on the real endpoint pair: setup ops, then the given reads.
+    Returns (frames acted on after the setup, closed, octets kept, escaped exceptions). """
+    sysm = tcpcl_drive.System()
+    end = obj.get('endpoint', 'A')
+    hdl = sysm.ep[end].h
+    log = []
+    orig = hdl.recv_message
+
+    def recorder(pkt):
+        log.append(bytes(pkt).hex())
+        return orig(pkt)
+
+    hdl.recv_message = recorder
+    for oper in obj['setup']:
+        if oper[0] == 'start':
+            sysm.apply(('start', end))
+        elif oper[0] == 'rx':
+            sysm.apply(('inject', end, bytes.fromhex(oper[1])))
+            sysm.apply(('rxpump', end, 1 << 20))
+        elif oper[0] == 'term':
+            sysm.apply(('term', end, oper[1]))
+        elif oper[0] == 'drain':
+            for _ in range(8):
+                sysm.apply(('txpump', end, 1 << 20))
+        else:
+            raise ValueError(oper)
+    base = len(log)
+    for chunk in chunks:
+        sysm.apply(('inject', end, bytes.fromhex(chunk)))
+        sysm.apply(('rxpump', end, 1 << 20))
+    snap = sysm.snapshot(end)
+    return dict(frames=log[base:], closed=bool(snap['closed']), kept=snap['rx_buf'].hex(),
+                escaped=[list(ent[1:3]) for ent in sysm.escaped])
+
+
+def session_case(chk, run, obj):
+    """ Session-level split invariance on the real handler: the same octets in
+    different chunkings must give the same frames acted on and the same
+    open/closed state.  (Coq: false in general, C07_session_two_reads_refuted;
+    true while the endpoint stays open, C07_session_stream_only.) """
+    outs = [session_run(obj, chunks) for chunks in obj['chunkings']]
+    chk.case(('session', json.dumps(obj, sort_keys=True)), nontrivial=len(obj['chunkings']) > 1,
+             sample=dict(suite='session', chunkings=obj['chunkings'], observed=outs))
+    chk.count('session_schedules', len(outs))
+    differ = any(out != outs[0] for out in outs[1:])
+    if differ:
+        terminating = any(step[0] == 'term' for step in obj['setup'])
+        sig = KNOWN_IDLE_SIG if terminating else 'C07 / session / frames acted on depend on the chunking (endpoint not terminating)'
+        run.fail(sig, 'chunkings %s give %s' % (obj['chunkings'], [(o['frames'], o['closed']) for o in outs]), obj)
+    return (outs, differ)
+
+
 def load_corpus():
     out = []
     for path in sorted(glob.glob(os.path.join(VERIF, 'harness', 'corpus', 'C07_*.json'))):
@@ -1327,12 +1382,15 @@ def run_all(chk):
     jobs = ModelJobs(chk)
     corpus_codec = []
     corpus_framing = []
+    corpus_session = []
     for (name, obj) in load_corpus():
         chk.count('corpus', name)
         if obj.get('suite') == 'codec':
             corpus_codec.append((frame_unjson(obj['frame']), [(it[0], it[1], bytes.fromhex(it[2])) for it in obj['items']], bytes.fromhex(obj.get('tail', ''))))
         elif obj.get('suite') == 'framing':
             corpus_framing.append(obj)
+        elif obj.get('suite') == 'session':
+            corpus_session.append(obj)
     laps = chk.coverage.setdefault('phase_seconds', {})
     last = [time.time()]
 
@@ -1342,6 +1400,12 @@ def run_all(chk):
 
     for obj in corpus_framing:
         replay_framing(chk, run, obj)
+    for obj in corpus_session:
+        session_case(chk, run, obj)
+    # the same schedule without terminate(): chunking must not matter (C07_session_stream_only)
+    for obj in corpus_session:
+        plain = dict(obj, setup=[step for step in obj['setup'] if step[0] != 'term'])
+        session_case(chk, run, plain)
     sizes = {}
     # the long-running model evaluations are submitted first; they run in the
     # background while the implementation side of every suite runs here
@@ -1352,9 +1416,14 @@ def run_all(chk):
               ('codec', run_codec(chk, run, jobs, corpus_codec, sizes))]
     try:
         for (name, gen) in stages:
-            next(gen)               # generate the cases, register the model terms
+            next(gen)               # generate the cases, register the model terms (starts the worker pool)
         lap('generate')
         jobs.start()                # one sharded coqc run in the background
+        # the proof obligations are re-checked while the model evaluation and
+        # the worker processes run
+        chk.coq_props()
+        chk.coq_props_extra('Props/C07sess.v')
+        lap('coq_props+C07sess')
         for (name, gen) in stages:
             next(gen)               # implementation side + oracle
             lap('impl:' + name)
@@ -1440,6 +1509,11 @@ def replay(chk, path):
         run.codec_oracle(frame, items, tail, impl, obj)
         if len(chk.violations) + len(chk.known_hits) > before:
             why = (chk.violations[-1][1] if chk.violations else 'known finding reproduced')
+    elif obj.get('suite') == 'session':
+        (outs, differ) = session_case(chk, run, obj)
+        for (chunks, out) in zip(obj['chunkings'], outs):
+            print('replay session: reads %s -> frames %s closed=%s kept=%s escaped=%s' % (chunks, out['frames'], out['closed'], out['kept'], out['escaped']))
+        why = differ and 'the chunkings are acted on differently'
     else:
         print('replay file names no input (broken obligation): %s' % json.dumps(obj)[:600])
     chk.case(('replay', path), nontrivial=True, sample=dict(replay=os.path.basename(path), failed=bool(why)))
@@ -1454,8 +1528,12 @@ def main():
     if chk.args.replay:
         replay(chk, chk.args.replay)
         return
-    chk.coq_props()
-    chk.coverage['phase_seconds'] = dict(coq_props=round(time.time() - chk.start, 1))
+    # the model file must be built before its evaluation starts; the theorem
+    # files are re-checked inside run_all, concurrently with the evaluation
+    (ret, out) = chk.coq_make(['Model/TcpclMsg.vo'])
+    if ret != 0:
+        chk.obligation('build:Model/TcpclMsg.vo', False, chk._first_error(out))
+    chk.coverage['phase_seconds'] = dict(build_model=round(time.time() - chk.start, 1))
     try:
         run = run_all(chk)
     except CoqError as err:
@@ -1478,7 +1556,8 @@ def main():
               'compare model and implementation only. Non-trivial: a codec case other than KEEPALIVE; a framing case with at least one read '
               'boundary strictly inside a frame. Distinct by (stream, cut) / (encoding, tail).'),
         extra_cov=dict(model='coq/Model/TcpclMsg.v',
-                       refuted=['C07_codec_exts_refuted (known finding: %s)' % KNOWN_EXT_SIG],
+                       refuted=['C07_codec_exts_refuted (known finding: %s)' % KNOWN_EXT_SIG,
+                                'C07_session_two_reads_refuted (known finding: %s)' % KNOWN_IDLE_SIG],
                        partial=['C07_codec_exts_partial (item lists of at most one item)', 'C07_codec_roundtrip (message level, region as octets) holds in full']),
         assumptions=['harness stubs for dbus and gi.repository.GLib (virtual main context) are trusted to behave as the real libraries',
                      'scapy 2.7.0 Packet/Field machinery is mirrored by the hand-written model (Model/TcpclMsg.v) and validated by correspondence only',
